@@ -43,7 +43,8 @@ Footprint(n) ==
     [] n = "NAME.CAT"  -> FP({"name"}, {"name"})
     [] n = "NAME.QUOTE" -> FP({}, {"quote"})
     [] n = "NAME.SEND"  -> FP({}, {"send"})
-    [] n \in {"NOOP", "CODE.NOOP"} \cup HarnessInstr -> FP({}, {})
+    [] n = "VERIF.TIMEUP" -> FP({}, {"cfg"})
+    [] n \in ({"NOOP", "CODE.NOOP"} \cup HarnessInstr) \ {"VERIF.TIMEUP"} -> FP({}, {})
     [] n \in {"CODE.APPEND", "CODE.CAR", "CODE.CDR", "CODE.CONS", "CODE.CONTAINER", "CODE.LIST",
               "CODE.SUBST"} -> FP({"code"}, {"code"})
     [] n \in {"CODE.=", "CODE.ATOM", "CODE.NULL", "CODE.CONTAINS", "CODE.MEMBER"} -> FP({"code"}, {"bool"})
